@@ -58,12 +58,16 @@ class Trace:
             n += 1
             self.per[name] = self.per.get(name, 0) + 1
             ev = {"n": n, "name": name, "ordinal": self.per[name], "kind": None, "path": None, "extra": None, "op": cur["idx"] if cur else None, "raw": rest[:200]}
+            failed = re.search(r"\)\s+= -1 E", rest) is not None   # a failed syscall (EEXIST, ENOENT, ...) changes nothing
 
             def rel(p):
                 if p == tree:
                     return "."
                 return os.path.relpath(p, tree) if p.startswith(tree + "/") else None
 
+            if failed:
+                self.events.append(ev)
+                continue
             if name == "openat":
                 mm = re.search(r'"([^"]+)", ([A-Z_|0-9x]+)', rest)
                 if mm:
